@@ -51,8 +51,8 @@ namespace nmtools::view
             using m_axis_t = decltype(m_axis);
             using result_t = decltype(var_impl(unwrap(m_axis)));
             if constexpr (meta::is_maybe_v<m_axis_t> && meta::is_maybe_v<result_t>) {
-                // an axis outside [-dim,dim) has no result: report it instead of unwrapping an empty optional
-                return (has_value(m_axis)
+                // an axis outside [-dim,dim) or a repeated axis has no result: report it instead of unwrapping an empty optional
+                return ((has_value(m_axis) && !index::has_repeated_axis(unwrap(m_axis)))
                     ? var_impl(unwrap(m_axis))
                     : result_t{meta::Nothing}
                 );
